@@ -19,6 +19,9 @@ def main(tier, seed):
     # "within one interpreter ... at most once": the same module imported again by later runs of one interpreter, after runs that failed in
     # every way; and imports made while a function of the imported module is on the call stack (loaded: no cycle; still loading: a cycle)
     profcheck.run_scenarios(rep, "rerunreentry", scenarios.module_rerun_scenarios(), bins, PROP)
+    # the module table is keyed by the path as written (extension included); a loaded module is imported without a call frame; an aliased
+    # import without a file name is a run-time ImportError
+    profcheck.run_scenarios(rep, "modulepaths", scenarios.module_path_scenarios(), bins, PROP)
     # "each module sees the built-ins": a built-in name rebound by the importer or by another module, before or after the load
     profcheck.run_scenarios(rep, "modulebuiltins", scenarios.module_builtin_scenarios(), bins, PROP)
     rep.coverage["exhaustive"] = False
